@@ -11,6 +11,7 @@ functions added so far: `validate_consistent_defaults`, `_validate_mapspec`, `va
 the first failing check and returns the effects performed so far.  Core Lean only.
 -/
 import PfModel.Model.MapRun
+import PfModel.Model.MapPieces
 namespace PF.Validate
 open PF PF.Map
 
@@ -122,8 +123,19 @@ def mapspecOutputOrderDiffers (f : MFunc) : Bool :=
   | none => false
   | some ms => ms.outputs.map (·.name) != f.outputs
 
+/-- `MapSpec.__post_init__` (`map/_mapspec.py:120-135`, reached through `_maybe_mapspec` in `PipeFunc.__init__`): an output axis
+    that is `:`, outputs with different indices, an input index that no output carries -/
+def mapspecMalformed (f : MFunc) : Bool :=
+  match f.mapspec with
+  | none => false
+  | some ms =>
+    ms.outputs.any (fun o => o.axes.any Option.isNone) ||
+    !((ms.outputs.drop 1).all fun o => o.axes.filterMap id == (ms.outputs.headD default).axes.filterMap id) ||
+    ms.inputIndices.any (fun i => !ms.outputIndices.contains i)
+
 /-- everything `PipeFunc(...)` checks that the generated faults can reach, in the code's order -/
 def pipeFuncValidate (f : MFunc) : V Unit := do
+  if mapspecMalformed f then throw ⟨.value, "mapspec-malformed"⟩
   if selfNamed f then throw ⟨.value, "output-is-own-parameter"⟩
   if mapspecInputNotParam f then throw ⟨.value, "mapspec-input-not-a-parameter"⟩
   if mapspecInputBound f then throw ⟨.value, "mapspec-input-bound"⟩
@@ -192,16 +204,32 @@ structure Prev where
   internal : List (String × List Nat)
   deriving Repr
 
+/-- the `storage=` argument: one registry name for everything, or a dictionary output name ↦ registry name
+    (a tuple-valued `output_name` is keyed by its names joined with `,`; `""` is the default entry) -/
+inductive StorageArg
+  | name (s : String)
+  | perOutput (d : List (String × String))
+  deriving Repr, DecidableEq, Inhabited
+
+instance : Coe String StorageArg := ⟨.name⟩
+
+/-- every registry name the argument mentions (`[storage] if isinstance(storage, str) else storage.values()`) -/
+def StorageArg.names : StorageArg → List String
+  | .name s => [s]
+  | .perOutput d => d.map (·.2)
+
 structure Req where
   inputs : List (String × Val)        -- a Python `list` is a `Val.tup`, an `ndarray` a `Val.arr`
   internal : List (String × List Nat) -- the caller's `internal_shapes`
-  storage : String
+  storage : StorageArg
   folder : Bool                       -- a `run_folder` is given
   cleanup : Bool
   executor : Bool
   parallel : Bool
   order : List String                 -- `sorted_functions` of this pipeline, by name (ties inside a generation are networkx's)
   prev : Option Prev                  -- the folder holds a completed run
+  outputNames : Option (List String) := none                  -- `output_names=` (`none`: everything)
+  fixed : Option (List (String × PF.Pieces.Sel)) := none      -- `fixed_indices=`
   deriving Repr
 
 def ofMap {α} (check : String) : M α → V Unit
@@ -225,8 +253,35 @@ def normInputs (inputs : List (String × Val)) : List (String × Val) := inputs.
 /-- `prepare_run`: "Cannot use an executor without `parallel=True`" -/
 def checkExecutor (r : Req) : V Unit := if r.executor && !r.parallel then .error ⟨.value, "executor-without-parallel"⟩ else .ok ()
 
-/-- `get_storage_class` -/
-def checkStorage (r : Req) : V Unit := if storageRegistry.contains r.storage then .ok () else .error ⟨.value, "unknown-storage"⟩
+/-- `_validate_storage_names`: `get_storage_class` on every name the `storage=` argument mentions -/
+def checkStorage (r : Req) : V Unit :=
+  if r.storage.names.all storageRegistry.contains then .ok () else .error ⟨.value, "unknown-storage"⟩
+
+/-- the key of a function in a `storage=` / `executor=` dictionary -/
+def outputKey (f : MFunc) : String := ",".intercalate f.outputs
+
+/-- functions whose outputs get a storage array in `init_store` (MapSpec with inputs) and for which a `storage=` dictionary
+    has neither an entry nor a `""` default (`RunInfo.storage_class`: "Cannot find storage class for …") -/
+def storageUnresolved (fs : List MFunc) (s : StorageArg) : List MFunc :=
+  match s with
+  | .name _ => []
+  | .perOutput d =>
+    if (alookup d "").isSome then [] else
+    fs.filter fun f => (match f.mapspec with | some ms => !ms.inputs.isEmpty | none => false) && (alookup d (outputKey f)).isNone
+
+/-- `_validate_storage_names` (second half, DF-37 repaired): every mapped output resolves to a storage class -/
+def checkStorageDefault (fs : List MFunc) (r : Req) : V Unit :=
+  if (storageUnresolved fs r.storage).isEmpty then .ok () else .error ⟨.value, "storage-default"⟩
+
+/-- the names `Pipeline.node_mapping` knows: every output name and every root argument -/
+def nodeNames (fs : List MFunc) : List String := allOutputs fs ++ rootArgs fs
+
+/-- `pipeline.subpipeline(set(inputs), output_names)`: `pipeline.node_mapping[n]` for a name that is not a node is a `KeyError`
+    (which functions a *proper* selection keeps is C11's subject, not modelled here) -/
+def checkOutputNames (fs : List MFunc) (r : Req) : V Unit :=
+  match r.outputNames with
+  | none => .ok ()
+  | some ns => if ns.all (nodeNames fs).contains then .ok () else .error ⟨.key, "output-names"⟩
 
 /-- `mapspec_dimensions` -/
 def specDim (fs : List MFunc) (n : String) : Nat :=
@@ -251,9 +306,10 @@ def sameDict {β} [BEq β] (a b : List (String × β)) : Bool :=
     | some w => kv.2 == w
     | none => false
 
-/-- `_is_equal`: `none` when the comparison itself raises (object ndarrays of equal shape under `equal_nan=True`) -/
+/-- `_is_equal` (after the DF-C05-objarray-gate repair: object ndarrays, for which `equal_nan=True` raises, are compared by
+    shape and then element by element; before it the comparison of equal-shaped object arrays raised and the result was `none`) -/
 def pyEqual : Val → Val → Option Bool
-  | .arr s _, .arr t _ => if s = t then none else some false
+  | .arr s a, .arr t b => some (s == t && valsEq a b)
   | .arr _ _, _ => some false
   | _, .arr _ _ => some false
   | a, b => some (valEq a b)
@@ -308,9 +364,12 @@ def callsOf (fs : List MFunc) (r : Req) : List Effect :=
 /-- the checks of `prepare_run` up to and including the storage lookup (first statement of `RunInfo.create`) -/
 def headChecks (fs : List MFunc) (r : Req) : List Step :=
   [ .check "executor-without-parallel" (checkExecutor r),
+    .check "output-names" (checkOutputNames fs r),
     .check "complete-inputs" (ofMap "complete-inputs" (validateInputs fs r.inputs)),
     .check "consistent-axes" (if axesConsistent fs then .ok () else .error ⟨.value, "inconsistent-axes"⟩),
-    .check "storage" (checkStorage r) ]
+    .check "fixed-indices" (ofMap "fixed-indices" (PF.Pieces.validateFixed fs (normInputs r.inputs) r.fixed)),
+    .check "storage" (checkStorage r),
+    .check "storage-default" (checkStorageDefault fs r) ]
 
 /-- `_cleanup_run_folder` or `_compare_to_previous_run_info` -/
 def folderSteps (fs : List MFunc) (r : Req) : List Step :=
@@ -356,18 +415,18 @@ inductive CallKind
 
 /-- the fixed classification table -/
 def classify (name : String) : CallKind :=
-  if ["raise", "validate_slurm_executor", "_validate_complete_inputs", "validate_consistent_axes", "_validate_fixed_indices",
+  if ["raise", "pipeline.subpipeline", "validate_slurm_executor", "_validate_complete_inputs", "validate_consistent_axes", "_validate_fixed_indices",
       "_validate_storage_names", "_maybe_run_folder", "_compare_to_previous_run_info", "_check_inputs", "map_shapes"].contains name
   then .validation
   else if ["run_info._dump_all", "run_info.init_store", "init_tracker"].contains name then .effect
   else if name == "_cleanup_run_folder" then .cleanup
-  else if ["pipeline._flatten_scopes", "pipeline.subpipeline", "set", "isinstance", "executor.copy", "pipeline.mapspecs", "OrderedDict",
+  else if ["pipeline._flatten_scopes", "set", "isinstance", "executor.copy", "pipeline.mapspecs", "OrderedDict",
            "_cannot_be_parallelized", "_check_parallel", "_construct_internal_shapes", "cls"].contains name then .neutral
   else .unknown
 
 /-- validations every request must pass before the first write -/
 def requiredValidations : List String :=
-  ["raise", "_validate_complete_inputs", "validate_consistent_axes", "_validate_fixed_indices", "_validate_storage_names",
+  ["raise", "pipeline.subpipeline", "_validate_complete_inputs", "validate_consistent_axes", "_validate_fixed_indices", "_validate_storage_names",
    "_compare_to_previous_run_info", "_check_inputs", "map_shapes"]
 
 def beforeFirstEffect (calls : List String) : List String := calls.takeWhile fun c => classify c != .effect
@@ -383,12 +442,64 @@ def validationsPrecedeEffects (calls : List String) : Bool :=
 
 /-- the source names of the steps of `startSteps`, in the order the model performs them -/
 def modelSourceOrder : List String :=
-  ["raise", "_validate_complete_inputs", "validate_consistent_axes", "_validate_storage_names", "_cleanup_run_folder",
-   "_compare_to_previous_run_info", "_check_inputs", "map_shapes", "run_info._dump_all", "run_info.init_store"]
+  ["raise", "pipeline.subpipeline", "_validate_complete_inputs", "validate_consistent_axes", "_validate_fixed_indices",
+   "_validate_storage_names", "_cleanup_run_folder", "_compare_to_previous_run_info", "_check_inputs", "map_shapes",
+   "run_info._dump_all", "run_info.init_store"]
 
 def isSubseq : List String → List String → Bool
   | [], _ => true
   | _ :: _, [] => false
   | a :: as, b :: bs => if a == b then isSubseq as bs else isSubseq (a :: as) bs
+
+/-! ### round 2: the head of `run_map` and the constructors, as extracted from the source -/
+
+inductive SrcKind
+  | validation   -- raises for an ill-formed argument, runs no user code
+  | gate         -- `prepare_run`: everything `startMap` models
+  | run          -- user functions may be invoked from here on
+  | mutation     -- changes the object under construction (no user code)
+  | neutral      -- plumbing
+  | unknown      -- not in the table: the tie is broken
+  deriving Repr, DecidableEq, Inhabited
+
+/-- classification of the calls of `run_map` / `run_map_async` (the nested `_run_pipeline` coroutine listed where it is defined) -/
+def classifyRun (name : String) : SrcKind :=
+  if name == "prepare_run" then .gate
+  else if ["_run_and_process_generation", "_run_and_process_generation_async", "_run_pipeline", "asyncio.create_task"].contains name
+  then .run
+  else if ["progress.display", "_maybe_executor", "progress.update_progress", "_maybe_persist_memory", "maybe_multi_run_manager",
+           "progress.attach_task", "is_running_in_ipynb", "multi_run_manager.display", "AsyncMap"].contains name then .neutral
+  else .unknown
+
+/-- every call is classified; `prepare_run` is called; only plumbing precedes it; the generations are run after it -/
+def prepareGuardsRun (calls : List String) : Bool :=
+  calls.all (fun c => classifyRun c != .unknown) &&
+  calls.contains "prepare_run" &&
+  (calls.takeWhile (· != "prepare_run")).all (fun c => classifyRun c == .neutral) &&
+  (calls.dropWhile (· != "prepare_run")).any (fun c => classifyRun c == .run)
+
+/-- classification of the calls of `Pipeline.__init__` / `add` / `_validate` / `_validate_mapspec` and `PipeFunc.__init__` / `_validate` -/
+def classifyCtor (name : String) : SrcKind :=
+  if ["raise", "self.add", "self._validate", "validate_unique_output_names", "validate_scopes", "validate_consistent_defaults",
+      "self._validate_mapspec", "validate_consistent_type_annotations", "validate_consistent_axes", "self._autogen_mapspec_axes",
+      "_maybe_mapspec", "self._validate_names"].contains name then .validation
+  else if ["self.functions.append", "f._pipelines.add", "self._clear_internal_cache", "self.update_scope"].contains name then .mutation
+  else if ["Resources.maybe_from_dict", "Resources.maybe_with_defaults", "isinstance", "any", "create_cache", "f.copy", "callable",
+           "PipeFunc", "type", "at_least_tuple", "self.mapspecs", "weakref.WeakSet", "_get_name", "return"].contains name then .neutral
+  else .unknown
+
+/-- user code can only run in `map`/`run`, so for a constructor the ordering fact is: every call is classified and every required
+    validation call is made before the first `return` -/
+def ctorValidates (required : List String) (calls : List String) : Bool :=
+  calls.all (fun c => classifyCtor c != .unknown) &&
+  required.all (fun v => (calls.takeWhile (· != "return")).contains v)
+
+def pipelineInitRequired : List String := ["self.add"]
+/-- the clash of output names is tested before the function is appended, the whole pipeline validated after -/
+def pipelineAddRequired : List String := ["validate_unique_output_names", "self.functions.append", "self._validate"]
+def pipelineValidateRequired : List String := ["validate_scopes", "validate_consistent_defaults", "self._validate_mapspec"]
+def pipelineValidateMapspecRequired : List String := ["raise", "validate_consistent_axes", "self._autogen_mapspec_axes"]
+def pipeFuncInitRequired : List String := ["_maybe_mapspec", "self._validate"]
+def pipeFuncValidateRequired : List String := ["self._validate_names", "self._validate_mapspec"]
 
 end PF.Validate
